@@ -216,6 +216,32 @@ func runBack(res *core.CaseResult, c core.CaseDesc, p caseP) {
 		}
 		_, err = settle(st.mem)
 	}
+	// still above the bound: does the rotation work at all? A paced stretch of
+	// new records (Sync after every few, nothing in flight when the next GC is
+	// decided) tells a rotation that lagged behind the burst from one that is
+	// broken.
+	if err == nil && cfg.MaxRecords > 0 {
+		bnd := bound(cfg.MaxRecords, batch)
+		if l, e := list(st.mem); e == nil && len(l) > bnd {
+			before := len(l)
+			start := st.mem.MachineRecord().NextId
+			for k := 0; k < 600 && st.mem.MachineRecord().NextId < start+uint64(2*cfg.MaxRecords)+uint64(batch)+2; k++ {
+				from := len(w.ops)
+				w.ops = append(w.ops, gen.RandHistory(r, w.spec.Names, []string{"add", "remove", "toggle"}, 5)...)
+				for i := from; i < len(w.ops); i++ {
+					w.ops[i].NoArgs = false
+				}
+				w.run(from, len(w.ops))
+				_ = st.mem.Sync()
+			}
+			_, err = settle(st.mem)
+			if l2, e := list(st.mem); err == nil && e == nil && len(l2) <= bnd {
+				res.Violate("C17/"+p.Backend+"/bound/gc-lagged-after-burst", fmt.Sprintf(
+					"%d records were kept with MaxRecords=%d after a burst had ended and three more batches had been written (asserted bound %d); a paced stretch of further records brought the log back to %d (batch %d; %s)",
+					before, cfg.MaxRecords, bnd, len(l2), batch, cfgStr(cfg)), nil)
+			}
+		}
+	}
 	if err != nil {
 		res.Violate("C17/"+p.Backend+"/sync/error", fmt.Sprintf("Sync / FindLatest failed: %v (%s)", err, cfgStr(cfg)), nil)
 		return
